@@ -592,15 +592,15 @@ def run_gss():
     out = _res()
     state = NS(state_id=7)
     t1, t2 = NS(symbol="a", value="x"), NS(symbol="b", value="xy")
-    for ahead, lc, lca, links in itertools.product((None, t1), ("", " "), ("", "\n "), (0, 2)):
+    for ahead, lc, lca, links, fr in itertools.product((None, t1), ("", " "), ("", "\n "), (0, 2), (5, 0)):
         for tok in (t1, t2):
             out["evaluations"] += 1
-            n = GSSNode("f.txt", "input", state, 3, 5, {"k": 1}, ambiguity=1, token_ahead=ahead, layout_content=lc,
+            n = GSSNode("f.txt", "input", state, 3, fr, {"k": 1}, ambiguity=1, token_ahead=ahead, layout_content=lc,
                         layout_content_ahead=lca, debug=False)
             key = {"token_ahead": None if ahead is None else ahead.symbol, "layout_content": lc,
-                   "layout_content_ahead": lca, "links": links, "for_token": tok.symbol}
+                   "layout_content_ahead": lca, "links": links, "for_token": tok.symbol, "frontier": fr}
             if (n.state, n.position, n.frontier, n.input_str, n.file_name, n.token_ahead, n.layout_content,
-                    n.layout_content_ahead, n.id, n.parents) != (state, 3, 5, "input", "f.txt", ahead, lc, lca, "5_7", {}):
+                    n.layout_content_ahead, n.parents) != (state, 3, fr, "input", "f.txt", ahead, lc, lca, {}):
                 _viol(out, "GSSNode.__init__", key, "fields / id after construction")
                 continue
             for i in range(links):
@@ -611,7 +611,7 @@ def run_gss():
             out["nontrivial"] += 0 if same else 1
             ok = r.token_ahead is tok and (r is n) == same
             ok = ok and (r.state, r.position, r.frontier, r.input_str, r.file_name, r.extra, r.layout_content,
-                         r.layout_content_ahead, r.id) == (state, 3, 5, "input", "f.txt", n.extra, lc, lca, "5_7")
+                         r.layout_content_ahead, r.id) == (state, 3, fr, "input", "f.txt", n.extra, lc, lca, n.id)
             ok = ok and r.parents == before and n.parents == before
             if not same:
                 ok = ok and r.parents is not n.parents and n.token_ahead is ahead
@@ -620,9 +620,22 @@ def run_gss():
             if not ok:
                 _viol(out, "GSSNode.for_token", key, {"same_node": r is n, "layout_content_ahead": r.layout_content_ahead,
                                                      "links": len(r.parents)})
+    # ---- the node id is a function of (frontier, state id) and an INJECTIVE one (links are keyed by it); bounded grid
+    ids = {}
+    for fr, sid in itertools.product(range(0, 41), range(0, 41)):
+        out["evaluations"] += 1
+        a_ = GSSNode("f", "input", NS(state_id=sid), 1, fr, {}, ambiguity=1).id
+        b_ = GSSNode("g", "other", NS(state_id=sid), 9, fr, None, ambiguity=2, layout_content=" ").id
+        if a_ != b_:
+            _viol(out, "GSSNode.__init__", {"frontier": fr, "state_id": sid}, {"id depends on more than (frontier, state id)": [a_, b_]})
+        if a_ in ids and ids[a_] != (fr, sid):
+            _viol(out, "GSSNode.__init__", {"frontier": fr, "state_id": sid},
+                  {"same id as (frontier, state id)": list(ids[a_]), "id": a_})
+        ids[a_] = (fr, sid)
     # ---- create_link / Parent.merge: a second path to the same root adds its alternatives to the existing link
     from parglare.glr import Parent
-    for n_old, n_new, same_root in itertools.product((1, 2), (1, 2), (False, True)):
+    for n_old, n_new, same_root, (lo, hi), rhs_new in itertools.product((1, 2), (1, 2), (False, True), ((1, 3), (2, 2)),
+                                                                       (["x"], [])):
         out["evaluations"] += 1
         out["nontrivial"] += 1
         head = GSSNode("f", "input", state, 3, 5, {}, ambiguity=1)
@@ -630,9 +643,11 @@ def run_gss():
         r2 = r1 if same_root else GSSNode("f", "input", NS(state_id=2), 1, 4, {}, ambiguity=1)
         alts1 = [NS(context=None, tag=f"o{i}") for i in range(n_old)]
         alts2 = [NS(context=None, tag=f"n{i}") for i in range(n_new)]
-        p1 = Parent(None, r1, 1, 3, possibilities=list(alts1))
-        p2 = Parent(None, r2, 1, 3, possibilities=list(alts2))
-        key = {"alternatives_on_first_link": n_old, "on_second": n_new, "same_root": same_root}
+        # (reduction links: spans may be empty, the production of the second link may or may not be an empty one)
+        p1 = Parent(None, r1, lo, hi, possibilities=list(alts1), production=NS(rhs=[], prod_id=1))
+        p2 = Parent(None, r2, lo, hi, possibilities=list(alts2), production=NS(rhs=rhs_new, prod_id=2))
+        key = {"alternatives_on_first_link": n_old, "on_second": n_new, "same_root": same_root, "span": [lo, hi],
+               "rhs_of_second_production": len(rhs_new)}
         c1 = head.create_link(p1)
         c2 = head.create_link(p2)
         ok = c1 is True and c2 is (not same_root) and p1.head is head and p2.head is head
